@@ -7,11 +7,13 @@ import (
 	"context"
 	"encoding/json"
 	"fmt"
+	"sync"
 	"testing"
 	"time"
 
 	"github.com/olric-data/olric/internal/cluster/partitions"
 	"github.com/olric-data/olric/internal/kvstore/entry"
+	"github.com/olric-data/olric/internal/verifhook"
 	"github.com/olric-data/olric/internal/zzverif/vcommon"
 	"pgregory.net/rapid"
 )
@@ -48,7 +50,7 @@ func genC04(t *rapid.T) *c04Case {
 	}
 	c.Keys = rapid.IntRange(1, 3).Draw(t, "keys")
 	n := rapid.IntRange(3, 25).Draw(t, "nops")
-	kinds := []string{"put", "put", "put", "fill", "fill", "expire", "getput", "incr", "decr", "incrbyfloat", "del", "lock", "unlock", "lease", "expiresoon", "evict"}
+	kinds := []string{"put", "put", "put", "fill", "fill", "expire", "getput", "incr", "decr", "incrbyfloat", "del", "lock", "unlock", "lease", "expiresoon", "evict", "overtake"}
 	for i := 0; i < n; i++ {
 		op := c04Op{Op: rapid.SampledFrom(kinds).Draw(t, "op")}
 		op.K = rapid.IntRange(0, c.Keys-1).Draw(t, "k")
@@ -137,6 +139,11 @@ outer:
 					time.Sleep(2 * time.Millisecond)
 					continue outer
 				}
+				// a difference that is a state, not a moment, is still there a quarter of a second later
+				if attempt < 12 {
+					time.Sleep(25 * time.Millisecond)
+					continue outer
+				}
 				return fmt.Sprintf("key %q: primary on %s holds %v, backup on %s holds %v", key, owner.name, p1, backups[i].name, b), false
 			}
 		}
@@ -222,6 +229,39 @@ func runC04(c *c04Case) (v *vcommon.Violation, nontrivial bool, inconclusive boo
 			cl.ownerOf(name, key).db.dmap.VerifEvict(name, key)
 		case "evict":
 			cl.ownerOf(name, key).db.dmap.VerifEvict(name, key)
+		case "overtake":
+			// Two Puts on one key through its owner. The first is held between taking its write timestamp and
+			// locking the fragment until the second has completed: the copy written last carries the older
+			// timestamp. Both are acknowledged; the copies must still be identical.
+			owner := cl.ownerOf(name, key)
+			gate, entered := make(chan struct{}), make(chan struct{}, 1)
+			var once sync.Once
+			verifhook.Set("put.fragmentLoaded", func(args ...string) {
+				if len(args) >= 2 && args[0] == owner.name && args[1] == key {
+					first := false
+					once.Do(func() { first = true })
+					if first {
+						entered <- struct{}{}
+						<-gate
+					}
+				}
+			})
+			slow := make(chan vRes, 1)
+			go func() {
+				slow <- (&pathClient{cl: cl, dmap: name, path: pOwnerEmb}).put(ctx, key, []byte(fmt.Sprintf("slow%d", i)), putOpt{})
+			}()
+			select {
+			case <-entered:
+				time.Sleep(2 * time.Millisecond) // a later millisecond for the second writer's timestamp is not needed (ns), but harmless
+				r = pc.put(ctx, key, []byte(fmt.Sprintf("fast%d", i)), putOpt{})
+				nontrivial = true
+			case <-time.After(2 * time.Second):
+			}
+			close(gate)
+			if rs := <-slow; r.Err == "" {
+				r = rs
+			}
+			verifhook.Set("put.fragmentLoaded", nil)
 		}
 		if existing[op.K] && op.Op != "put" && op.Op != "evict" {
 			nontrivial = true
